@@ -1,6 +1,10 @@
 package main
 
 import (
+	"bytes"
+	"reflect"
+	"unsafe"
+
 	"github.com/sarchlab/akita/v4/mem/mem"
 	"github.com/sarchlab/akita/v4/sim"
 	"github.com/sarchlab/akita/v4/tracing"
@@ -24,6 +28,22 @@ type obs struct {
 	onDone func(g int)
 	onMap  func(g int)
 	paths  map[int][]string // emulation: instruction path per wavefront
+	pcs    map[int][]int    // emulation: address (relative to the kernel) of every executed instruction per wavefront
+	nextPC map[int]int
+
+	// front-end observation (scenario flag "fe"): fetch events, issue-time facts, every task end
+	fe      bool
+	cu      *cu.ComputeUnit
+	code    func(k *kernels.Wavefront, pc uint64, n int) []byte // the code bytes at pc in the harness image
+	all     map[int]*wavefront.Wavefront                        // every wavefront seen, by trace id
+	refLen  map[int]int // timing: length of the reference path per wavefront (nil: no reference)
+	nIssued map[int]int
+	runaway bool
+	dispSeq map[int]int                                         // trace id -> position in dispatch (pool) order
+	ndisp   int
+	ends    map[string]int
+	fetchW  map[string]int
+	fetchA  map[string]int
 
 	open    map[string]*openInst
 	instNo  map[string]int // inst task id -> small id (kept after the end for request lookups)
@@ -51,6 +71,8 @@ type reqRec struct {
 
 func newObs(r *runner, wfIDOf func(*kernels.Wavefront) int, gOf func(*kernels.WorkGroup) int) *obs {
 	return &obs{r: r, wfIDOf: wfIDOf, gOf: gOf, onDone: func(int) {}, onMap: func(int) {},
+		pcs: map[int][]int{}, nextPC: map[int]int{}, all: map[int]*wavefront.Wavefront{}, dispSeq: map[int]int{}, nIssued: map[int]int{},
+		ends: map[string]int{}, fetchW: map[string]int{}, fetchA: map[string]int{},
 		open: map[string]*openInst{}, instNo: map[string]int{}, wfTask: map[string]int{},
 		wfPtr: map[int]*wavefront.Wavefront{}, reqG: map[string]int{}, reqInfo: map[string]*reqRec{}}
 }
@@ -89,8 +111,23 @@ func (o *obs) StartTask(task tracing.Task) {
 			r.st.MemOps++
 		}
 		ov, os := counters(wf)
-		r.emit("Issue", ab.Rec{"w": w, "id": o.nid, "k": k, "v": v, "s": s,
-			"pc": int(wf.PC() - wf.Packet.KernelObject), "ov": ov, "os": os})
+		if o.refLen != nil {
+			o.nIssued[w]++
+			if n, ok := o.refLen[w]; ok && o.nIssued[w] > n+4 {
+				o.runaway = true
+			}
+		}
+		rec := ab.Rec{"w": w, "id": o.nid, "k": k, "v": v, "s": s,
+			"pc": int(wf.PC() - wf.Packet.KernelObject), "ov": ov, "os": os}
+		if o.fe {
+			o.all[w] = wf
+			o.issueFacts(rec, wf, in)
+		}
+		r.emit("Issue", rec)
+	case "fetch":
+		if o.fe {
+			o.fetchStart(task)
+		}
 	case "wavefront":
 		o.wfTask[task.ID] = 0 // resolved at the end: the task id is the wavefront's UID
 	}
@@ -101,6 +138,27 @@ func (o *obs) AddMilestone(m tracing.Milestone) {}
 
 func (o *obs) EndTask(task tracing.Task) {
 	r := o.r
+	if o.fe {
+		if id, isInst := o.instNo[task.ID]; isInst {
+			o.ends[task.ID]++
+			oi := o.open[task.ID]
+			w, k := 0, ""
+			if oi != nil {
+				w, k = oi.w, oi.k
+			}
+			r.emit("Retire", ab.Rec{"id": id, "w": w, "k": k, "n": o.ends[task.ID]})
+		}
+		if w, isFetch := o.fetchW[task.ID]; isFetch {
+			wf := o.all[w]
+			bufok := 1
+			if want := o.code(wf.Wavefront, wf.InstBufferStartPC, len(wf.InstBuffer)); !bytes.Equal(want, wf.InstBuffer) {
+				bufok = 0
+			}
+			r.emit("FetchRsp", ab.Rec{"w": w, "a": o.fetchA[task.ID], "start": int(wf.InstBufferStartPC - wf.Packet.KernelObject),
+				"blen": len(wf.InstBuffer), "bufok": bufok})
+			delete(o.fetchW, task.ID)
+		}
+	}
 	if oi, ok := o.open[task.ID]; ok {
 		delete(o.open, task.ID)
 		if oi.k == "bar" || oi.k == "end" {
@@ -141,6 +199,10 @@ func (o *obs) dispatchHook(isEmu bool) sim.Hook {
 					wfs[i] = o.wfIDOf(wf)
 				}
 				r.st.WGs++
+				for _, id := range wfs {
+					o.ndisp++
+					o.dispSeq[id] = o.ndisp
+				}
 				o.onMap(g)
 				rec := ab.Rec{"g": g, "wfs": wfs}
 				if !isEmu && *sampling.SampledRunnerFlag && sampling.SampledEngineInstance != nil {
@@ -240,6 +302,8 @@ func (o *obs) attachEmu(u *emu.ComputeUnit) {
 		nid := o.nid
 		if o.paths != nil {
 			o.paths[w] = append(o.paths[w], kindStr(k, v, s))
+			o.pcs[w] = append(o.pcs[w], o.nextPC[w]) // the first instruction is at the kernel's entry (offset 0)
+			o.nextPC[w] = int(wf.PC() - wf.Packet.KernelObject)
 		}
 		r.st.Insts++
 		// the hook runs after the instruction: PC is already past it (a taken branch makes this the target; only logged)
@@ -260,4 +324,138 @@ func (o *obs) attachEmu(u *emu.ComputeUnit) {
 		}
 	}))
 	u.ToDispatcher.AcceptHook(o.dispatchHook(true))
+}
+
+func unitClass(u insts.ExeUnit) string {
+	switch u {
+	case insts.ExeUnitVALU:
+		return "V"
+	case insts.ExeUnitScalar:
+		return "S"
+	case insts.ExeUnitVMem:
+		return "M"
+	case insts.ExeUnitBranch:
+		return "B"
+	case insts.ExeUnitLDS:
+		return "L"
+	case insts.ExeUnitSpecial:
+		return "I"
+	}
+	return "?"
+}
+
+func (o *obs) unitOf(u insts.ExeUnit) cu.SubComponent {
+	switch u {
+	case insts.ExeUnitVALU:
+		return o.cu.VectorDecoder
+	case insts.ExeUnitScalar:
+		return o.cu.ScalarDecoder
+	case insts.ExeUnitVMem:
+		return o.cu.VectorMemDecoder
+	case insts.ExeUnitBranch:
+		return o.cu.BranchUnit
+	case insts.ExeUnitLDS:
+		return o.cu.LDSDecoder
+	}
+	return nil
+}
+
+func (o *obs) cycle() int { return int(float64(o.cu.Engine.CurrentTime())*1e9 + 0.5) }
+
+// issueFacts adds what the real objects say at the moment the instruction is issued: the cycle, the SIMD, the unit
+// class, whether the unit accepts a wavefront, whether the bytes the instruction buffer holds at PC are the code
+// bytes at PC, and for every wavefront of the same SIMD (pool order) whether it could have been issued instead.
+func (o *obs) issueFacts(rec ab.Rec, wf *wavefront.Wavefront, in *wavefront.Inst) {
+	rec["t"], rec["simd"], rec["cls"] = o.cycle(), wf.SIMDID, unitClass(in.ExeUnit)
+	rec["size"], rec["fmt"], rec["opc"] = in.ByteSize, int(in.FormatType), int(in.Opcode)
+	rec["simm"] = 0
+	if in.FormatType == insts.SOPP && in.SImm16 != nil {
+		rec["simm"] = int(int16(uint16(in.SImm16.IntValue)))
+	}
+	can := 1
+	if u := o.unitOf(in.ExeUnit); u != nil && !u.CanAcceptWave() {
+		can = 0
+	}
+	rec["can"] = can
+	off := wf.PC() - wf.InstBufferStartPC
+	ibok := 0
+	if wf.PC() >= wf.InstBufferStartPC && off+uint64(in.ByteSize) <= uint64(len(wf.InstBuffer)) {
+		want := o.code(wf.Wavefront, wf.PC(), in.ByteSize)
+		ibok = 1
+		for i := 0; i < in.ByteSize; i++ {
+			if wf.InstBuffer[int(off)+i] != want[i] {
+				ibok = 0
+			}
+		}
+	}
+	rec["ibok"] = ibok
+	rec["start"], rec["blen"] = int(wf.InstBufferStartPC-wf.Packet.KernelObject), len(wf.InstBuffer)
+	pool := [][]interface{}{}
+	older := 1
+	for _, x := range o.poolWfs(wf.SIMDID) {
+		if x == wf {
+			older = 0
+			continue
+		}
+		c := ""
+		if x.InstToIssue != nil {
+			c = unitClass(x.InstToIssue.ExeUnit)
+		}
+		pool = append(pool, []interface{}{o.wfIDOf(x.Wavefront), b2i(x.State == wavefront.WfReady), c, older})
+	}
+	rec["pool"] = pool
+	rec["rr"] = o.lastSIMD()
+}
+
+// poolWfs reads the (private) wavefront list of one SIMD's pool of the real CU, in pool order.
+func (o *obs) poolWfs(simd int) []*wavefront.Wavefront {
+	f := reflect.ValueOf(o.cu.WfPools[simd]).Elem().FieldByName("wfs")
+	return *(*[]*wavefront.Wavefront)(unsafe.Pointer(f.UnsafeAddr()))
+}
+
+// lastSIMD reads the issue arbiter's private round-robin pointer (the SIMD the NEXT arbitration starts with; the arbitration
+// that chose the instruction being issued started one before it); -1 when the field cannot be found.
+func (o *obs) lastSIMD() (rr int) {
+	defer func() {
+		if recover() != nil {
+			rr = -1
+		}
+	}()
+	v := reflect.ValueOf(o.cu.Scheduler)
+	for v.Kind() == reflect.Interface || v.Kind() == reflect.Ptr {
+		v = v.Elem()
+	}
+	a := v.FieldByName("issueArbiter")
+	for a.Kind() == reflect.Interface || a.Kind() == reflect.Ptr {
+		a = a.Elem()
+	}
+	return int(a.FieldByName("lastSIMDID").Int())
+}
+
+// fetchStart: the scheduler sent an instruction fetch (tracing task "fetch", parent = the wavefront's UID; the request is
+// the newest entry of InFlightInstFetch).
+func (o *obs) fetchStart(task tracing.Task) {
+	n := len(o.cu.InFlightInstFetch)
+	if n == 0 {
+		panic("harness: fetch task without in-flight fetch record")
+	}
+	info := o.cu.InFlightInstFetch[n-1]
+	wf := info.Wavefront
+	w := o.wfIDOf(wf.Wavefront)
+	o.all[w] = wf
+	a := int(info.Address - wf.Packet.KernelObject)
+	o.fetchW[task.ID], o.fetchA[task.ID] = w, a
+	all := [][]int{}
+	for simd := range o.cu.WfPools {
+		for _, x := range o.poolWfs(simd) {
+			fetching := x.IsFetching
+			if x == wf {
+				fetching = false // it was not fetching when the arbiter chose it
+			}
+			all = append(all, []int{o.wfIDOf(x.Wavefront), b2i(fetching), b2i(x.State == wavefront.WfCompleted), len(x.InstBuffer),
+				int(float64(x.LastFetchTime)*1e9 + 0.5)})
+		}
+	}
+	o.r.emit("Fetch", ab.Rec{"t": o.cycle(), "w": w, "a": a, "pc": int(wf.PC() - wf.Packet.KernelObject),
+		"start": int(wf.InstBufferStartPC - wf.Packet.KernelObject), "blen": len(wf.InstBuffer), "all": all})
 }
